@@ -41,7 +41,7 @@ def main():
         b = GR.build(spec)
         try:
             g = extract_grammar(b.considered, b.start)
-            decl = declared_grammar(list(b.classes.values()), b.start)
+            decl = b.oracle()
             mind = int(g.get_min_tree_depth())
             evs = []
             for d in (mind, mind + 1, mind + 2):
